@@ -7,17 +7,32 @@
    [o_contexts], [o_hed] (hed_strings).  Times are integers in a fixed dyadic unit.
    [valid_timeline]: per time point a definition name occurs in at most one Onset/Offset group and
    every Offset finds a process of its name open (what the onset validator enforces).
-   All theorems are for ALL histories (no bound on length, names, times). *)
+   All theorems are for ALL histories (no bound on length, names, times).
+   "The code" is the CURRENT /repo: stable sort of equal onsets (fix commit 29fcd01), unconvertible
+   Delay groups stay in their row (ef31cc7, e4bce88), Onset/Offset markers recognised by short base
+   tag also under a schema namespace (4d37e17).  No theorem here is a refutation of the property;
+   C20_ghost_row_context and C20_reuse_changes_store are contrasts/observations, labelled as such. *)
 From Coq Require Import List NArith ZArith Arith Bool.
 From HV Require Import Base.Res Model.Events Model.EventQueries Proofs.EventsProofs Proofs.EventsTime
-  Proofs.EventQueriesProofs.
+  Proofs.EventQueriesProofs Proofs.EventsAudit.
 Import ListNotations.
 
-(* Files whose onsets are not non-decreasing are rejected (HedFileError) ... *)
+(* Files whose onsets are not non-decreasing are rejected (HedFileError).  This direction is the
+   first test of the model's [event_manager] (a transcription of the first statement of
+   EventManager.__init__), i.e. it holds by construction of the model; what ties it to the code is
+   the correspondence run. *)
 Theorem C20_unordered_rejected : forall h,
   mono (map r_onset h) = false -> event_manager h = Exn HedFileError.
 Proof. exact unordered_rejected. Qed.
 Print Assumptions C20_unordered_rejected.
+
+(* The converse has content: HedFileError is raised for NOTHING else -- whatever else goes wrong in an
+   ordered file (an Offset without open process is a KeyError) it is never reported as "onsets not
+   ordered" (every partial operation of the loops is followed through). *)
+Theorem C20_rejected_iff_unordered : forall h,
+  event_manager h = Exn HedFileError <-> mono (map r_onset h) = false.
+Proof. exact rejected_iff_unordered. Qed.
+Print Assumptions C20_rejected_iff_unordered.
 
 (* ... and every valid time-ordered file is accepted: no exception of any kind (no KeyError from an
    Offset, no IndexError from contexts[i] or onsets[mid], bisection terminates). *)
@@ -26,6 +41,25 @@ Theorem C20_valid_accepted : forall h,
   exists o, event_manager h = Ok o.
 Proof. exact valid_accepted. Qed.
 Print Assumptions C20_valid_accepted.
+
+(* The manager's rows ARE the Delay-shifted, merged time line, so the hypothesis
+   [valid_timeline (o_rows o)] of the theorems below is the hypothesis of C20_valid_accepted; the
+   accepted manager of a valid file satisfies it (and C20_rows_valid_instance shows a concrete one). *)
+Theorem C20_rows_are_time_line : forall h o, event_manager h = Ok o -> o_rows o = split_delay_tags h.
+Proof. exact em_rows. Qed.
+Print Assumptions C20_rows_are_time_line.
+
+Theorem C20_valid_accepted_rows : forall h,
+  mono (map r_onset h) = true -> valid_timeline (split_delay_tags h) ->
+  exists o, event_manager h = Ok o /\ o_rows o = split_delay_tags h /\ valid_timeline (o_rows o).
+Proof. exact valid_accepted_rows. Qed.
+Print Assumptions C20_valid_accepted_rows.
+
+Theorem C20_rows_valid_instance :
+  exists o, event_manager ex_history = Ok o /\ o_rows o = split_delay_tags ex_history /\
+            valid_timeline (o_rows o).
+Proof. exact ex_history_rows_valid. Qed.
+Print Assumptions C20_rows_valid_instance.
 
 (* Entries come in time order; rows that share an onset act as one time point (only the first of
    them carries annotation); every top-level group of the file sits at exactly its row's onset plus
@@ -100,6 +134,22 @@ Theorem C20_context_iff : forall h o, event_manager h = Ok o -> valid_timeline (
 Proof. exact em_context_iff. Qed.
 Print Assumptions C20_context_iff.
 
+(* [ev_end_index] reads the end index of an event and would give 0 for an event without one; that case
+   does not occur: every listed event of a valid file has an end index (at most the number of rows),
+   and the context can be stated with it explicitly. *)
+Theorem C20_every_event_ended : forall h o, event_manager h = Ok o -> valid_timeline (o_rows o) ->
+  forall e, In e (all_events o) ->
+    exists j, ev_end e = Some j /\ j <= length (o_rows o) /\ ev_end_index e = j.
+Proof. exact every_event_ended. Qed.
+Print Assumptions C20_every_event_ended.
+
+Theorem C20_context_iff_end : forall h o, event_manager h = Ok o -> valid_timeline (o_rows o) ->
+  forall i e,
+    In e (nth i (o_contexts o) []) <->
+    In e (all_events o) /\ exists j, ev_end e = Some j /\ ev_start e < i /\ i < j.
+Proof. exact context_iff_end. Qed.
+Print Assumptions C20_context_iff_end.
+
 (* ... as a list: those events, once each, in event_list order. *)
 Theorem C20_context_eq : forall h o, event_manager h = Ok o -> valid_timeline (o_rows o) ->
   forall i, nth i (o_contexts o) [] =
@@ -127,11 +177,24 @@ Theorem C20_ghost_row_context :
 Proof. exact ghost_row_context. Qed.
 Print Assumptions C20_ghost_row_context.
 
-(* The remaining annotation of each point is kept without the temporal groups. *)
+(* The remaining annotation of each point is kept without the temporal groups.  In this row-level form
+   the statement restates how the model computes [o_hed] (what is left after both extractors removed
+   their groups), i.e. it holds by construction of the model and is tied to the code by the
+   correspondence run; C20_remaining_from_file below is the statement in terms of the FILE. *)
 Theorem C20_remaining_kept : forall h o, event_manager h = Ok o ->
   o_hed o = map (fun r => filter is_plain (r_items r)) (o_rows o).
 Proof. exact em_remaining. Qed.
 Print Assumptions C20_remaining_kept.
+
+(* In terms of the file: an item is in the remaining annotation of a row with onset t exactly when it
+   is a non-temporal top-level item of some file row whose onset plus the item's Delay is t (nothing
+   lost, nothing invented, nothing temporal left; holds for every accepted file, valid or not). *)
+Theorem C20_remaining_from_file : forall h o, event_manager h = Ok o ->
+  forall t it,
+    (exists i r, nth_error (o_rows o) i = Some r /\ r_onset r = t /\ In it (nth i (o_hed o) [])) <->
+    (is_plain it = true /\ exists r, In r h /\ In it (r_items r) /\ t = (delay_of it + r_onset r)%Z).
+Proof. exact remaining_from_file. Qed.
+Print Assumptions C20_remaining_from_file.
 
 (* "The remaining annotation of each point is kept", across consumers: for ANY sequence of reports
    asked of one constructed manager (unfold_context / tag-manager objects with any remove_types, or
